@@ -105,12 +105,18 @@ def run_lin(case):
             type(e).__name__, str(e)[:60], sig[:150]), sig="ctor-raised")
     wit = {"desc": desc, "repr": repr(A)}
     ish = tuple(A.ishape)
-    tol = 1e-10
+    if sum(case["rs"]) % 5 == 0:
+        sig += "|c64"
+    # a fifth of the cases run in single precision (complex64 data): dtype-specific paths
+    single = (sum(case["rs"]) % 5 == 0)
+    cdt = np.complex64 if single else np.complex128
+    tol = 2e-4 if single else 1e-10
+    dtol = 1e-5 if single else 1e-12
     checks = 0
     obs = {}
     try:
-        x = crandn(rng, ish)
-        y = crandn(rng, ish)
+        x = crandn(rng, ish, cdt)
+        y = crandn(rng, ish, cdt)
         x0, y0 = x.copy(), y.copy()
         STATE.peak = 0.0
         Ax, Ay = np.asarray(A(x)), np.asarray(A(y))
@@ -134,7 +140,7 @@ def run_lin(case):
         obs["linearity"] = worst
         # the adjoint is an operator of its own: same linearity requirement
         AH = A.H
-        u, v = crandn(rng, tuple(A.oshape)), crandn(rng, tuple(A.oshape))
+        u, v = crandn(rng, tuple(A.oshape), cdt), crandn(rng, tuple(A.oshape), cdt)
         STATE.peak = 0.0
         Hu, Hv = np.asarray(AH(u)), np.asarray(AH(v))
         pk = STATE.peak
@@ -156,7 +162,7 @@ def run_lin(case):
         H = A.H
         N = A.N
         outs.append(np.asarray(A(x)))
-        yy = crandn(rng, tuple(A.oshape))
+        yy = crandn(rng, tuple(A.oshape), cdt)
         h1 = np.asarray(H(yy))
         n1 = np.asarray(N(x))
         outs.append(np.asarray(A(x)))
@@ -166,13 +172,13 @@ def run_lin(case):
         ref = outs[0]
         for k, o in enumerate(outs[1:]):
             d = nrm(o - ref) / max(nrm(ref), 1e-300) if nrm(ref) > 0 else nrm(o - ref)
-            if o.shape != ref.shape or not d <= 1e-12:
+            if o.shape != ref.shape or not d <= dtol:
                 return violated(sig, "same operator, equal input, different output at "
                                 "repetition %d (rel %.3g)" % (k + 1, d), wit,
                                 mech="nondeterministic")
         for nm_, p, q in (("A.H", h1, h2), ("A.N", n1, n2)):
             d = nrm(p - q) / max(nrm(p), 1e-300) if nrm(p) > 0 else nrm(p - q)
-            if not d <= 1e-12:
+            if not d <= dtol:
                 return violated(sig, "%s applied twice to equal input differs (rel %.3g)" % (
                     nm_, d), wit, mech="nondeterministic")
         # read-only input: a hidden in-place write raises
@@ -187,19 +193,19 @@ def run_lin(case):
                 return violated(sig, "application writes into its input: %s" % inn, wit,
                                 mech="writes-input")
             raise
-        if nrm(yr - ref) > 1e-12 * max(nrm(ref), 1e-300):
+        if nrm(yr - ref) > dtol * max(nrm(ref), 1e-300):
             return violated(sig, "read-only input gives a different result", wit,
                             mech="nondeterministic")
         # non-contiguous view of equal values
         if x.ndim >= 1 and x.size > 1:
-            big = np.zeros(tuple(2 * s for s in ish), np.complex128)
+            big = np.zeros(tuple(2 * s for s in ish), cdt)
             sl = tuple(slice(None, None, 2) for _ in ish)
             big[sl] = x
             xv = big[sl]
             big0 = big.copy()
             yv = np.asarray(A(xv))
             checks += 1
-            if nrm(yv - ref) > 1e-12 * max(nrm(ref), 1e-300):
+            if nrm(yv - ref) > dtol * max(nrm(ref), 1e-300):
                 return violated(sig, "non-contiguous view of an equal input gives a "
                                 "different result", wit, mech="view")
             if not np.array_equal(big, big0):
